@@ -4,6 +4,8 @@ CONSTANTS
   Ideal = 0
   MaxCommits = 0
   Crashes = FALSE
+  WriteFailures = FALSE
+  Dedup = FALSE
   Order = "post"
 INVARIANT Report
 CHECK_DEADLOCK FALSE
